@@ -156,7 +156,7 @@ fn trees(alpha: &str, max_len: usize) -> Box<dyn Check> {
         alpha_name: alpha.into(),
         alpha: cov_alphabet(alpha),
         max_len,
-        cap_per_word: 20_000,
+        cap_per_word: 4_000,
         judge: mk_judge(cache, board),
         extra: Box::new(move || json!({"worst_error_over_envelope": b2.dump()})),
     })
@@ -172,6 +172,11 @@ pub fn plan(tier: Tier) -> Plan {
         checks.push(trees(a, if q { 5 } else { 6 }));
     }
     for a in ["corr", "off"] {
+        let mut al = cov_alphabet(a);
+        al.truncate(4);
+        checks.push(Box::new(super::c20::ExtendSplit::<Covariance> { prop: "C09", alpha_name: a.into(), alpha: al, max_len: if q { 5 } else { 6 }, judge: mk_judge(Arc::new(ExactCache::new(2)), Arc::new(RatioBoard::new())) }));
+    }
+    for a in ["corr", "off"] {
         let board = Arc::new(RatioBoard::new());
         let mut al = cov_alphabet(a);
         al.truncate(3);
@@ -185,7 +190,7 @@ pub fn plan(tier: Tier) -> Plan {
         }));
     }
     Plan {
-        rule: "large n: chains built by merging an estimator with itself up to 34 (40) times and every cross merge of two chains, against the exact statistics of the weighted multiset of pairs (n up to 2^41, beyond the stated 10^6); AND add-only: every sequence over each pair alphabet (partially correlated, exactly collinear, anti-collinear, independent offsets 1e9/-1e6, mixed magnitudes 1e±30) and its swapped twin up to the depth bound; merge trees: the interval exploration of C02 over the same alphabets; all ten accessors judged against exact rational means, Sxx, Syy, Sxy; covariance/pearson judged when both coordinates have non-zero spread and kappa <= 1e12; non-trivial = at least two pairs".into(),
+        rule: "built by extend: every word of length <= 5 (6) x every split into a prefix (add loop or collect) and a rest fed through extend by value / by reference, judged by the same value oracle; large n: chains built by merging an estimator with itself up to 34 (40) times and every cross merge of two chains, against the exact statistics of the weighted multiset of pairs (n up to 2^41, beyond the stated 10^6); AND add-only: every sequence over each pair alphabet (partially correlated, exactly collinear, anti-collinear, independent offsets 1e9/-1e6, mixed magnitudes 1e±30) and its swapped twin up to the depth bound; merge trees: the interval exploration of C02 over the same alphabets; all ten accessors judged against exact rational means, Sxx, Syy, Sxy; covariance/pearson judged when both coordinates have non-zero spread and kappa <= 1e12; non-trivial = at least two pairs".into(),
         assumptions: common_assumptions(),
         checks,
     }
